@@ -573,7 +573,11 @@ def load(path):
             # one-line form:  const NAME: TY = const VALUE;
             head, val = ln[:-1].split(' = const ', 1)
             head = head.split(' ', 1)[1]
-            k = find_top(head, 0, ': ')
+            k = scan_balanced(head, 0, ':')
+            while k < len(head) and not head.startswith(': ', k) or head.startswith('::', k) or (k > 0 and head[k - 1] == ':'):
+                k = scan_balanced(head, k + (2 if head.startswith('::', k) else 1), ':')
+                if k >= len(head):
+                    break
             b = Body()
             b.kind = 'const'
             b.name = head[:k].strip()
